@@ -297,6 +297,18 @@ func judgeBattle(c battleCase, rec *hx.Rec) string {
 		add(cls.earlyStop, "ended_single_survivor")
 		add(cls.loneDeath, "ended_lone_warrior_died")
 		add(len(c.Ws) >= 3, "three_or_more_warriors")
+		add(len(c.Ws) >= 17, "seventeen_or_more_warriors")
+		add(len(c.Ws) > 64, "more_than_64_warriors")
+		add(c.Cfg.M > 65536, "core_gt_65536")
+		add(c.Cfg.Cycles >= 1500, "cycle_limit_ge_1500")
+		add(c.Cfg.P > 256, "process_limit_gt_256")
+		hugeOff := false
+		for _, o := range c.Offs {
+			if o < 0 || o >= 1<<31 {
+				hugeOff = true
+			}
+		}
+		add(hugeOff, "offset_ge_2^31")
 		add(c.Cfg.R < c.Cfg.M || c.Cfg.W < c.Cfg.M, "limit_below_M")
 		nt := cls.diedWhileOtherLives || cls.dropped || len(c.Ws) >= 3 || cls.foreignWrite || (cls.endAtLimit && b.Living > 0)
 		rec.Case(nt, hx.HashJSON(c), func() any { return compactBattle(c) }, classes...)
